@@ -68,6 +68,10 @@ class ForwardAnalysis(Generic[T], Analysis[T], ABC):
             if not self.eq(val_after, vals_after[bb]):
                 vals_after[bb] = val_after
                 queue.update(bb.successors)
+                # Values also flow along dummy edges when unreachable code is included,
+                # so the dummy successors read `vals_after[bb]` and must be revisited too
+                if self.include_unreachable():
+                    queue.update(bb.dummy_successors)
         return vals_before
 
 
@@ -97,6 +101,10 @@ class BackwardAnalysis(Generic[T], Analysis[T], ABC):
             if not self.eq(vals_before[bb], val_before):
                 vals_before[bb] = val_before
                 queue.update(bb.predecessors)
+                # Values also flow along dummy edges when unreachable code is included,
+                # so the dummy predecessors read `vals_before[bb]` and must be revisited
+                if self.include_unreachable():
+                    queue.update(bb.dummy_predecessors)
         return vals_before
 
 
